@@ -10,7 +10,9 @@ PSTYLES = [("Heading1", "Heading 1"), ("Heading2", "heading 2"), ("Quote", "Inte
 RSTYLES = [("Strong", "Strong"), ("Emph", "Emphasis"), ("Hyperlink", "Hyperlink"), ("FootnoteReference", "footnote reference")]
 TSTYLES = [("TableGrid", "Table Grid"), ("Fancy", "Fancy Table")]
 IGNORED = ["w:sectPr", "w:proofErr", "w:lastRenderedPageBreak", "w:bookmarkEnd", "w:commentRangeStart", "w:commentRangeEnd"]
-UNKNOWN = ["w:foo", "w:customXml", "x:unknown", "w:moveFrom"]
+UNKNOWN = ["w:foo", "w:customXml", "x:unknown", "w:moveFrom",
+           # one spelled name, several namespaces: a prefix re-bound on the element itself (also the w prefix: then w:t is NOT text)
+           "x~a:unknown", "x~b:unknown", "w~z:t", "w~y:t"]
 TOGGLE_SPELLINGS = [None, "true", "1", "false", "0", "on", "off", ""]
 PNG = bytes([0x89, 0x50, 0x4E, 0x47, 13, 10, 26, 10, 0, 1, 2, 3])
 
@@ -36,8 +38,10 @@ class Package:
 class XGen:
     def __init__(self, rng, hostile=0.25, anomalies=0.0, optional_absent=0.0, dangling=0.0, fields=True, tables=True,
                  images=True, notes=True, comments=True, textboxes=True, deleted=True, numbering=True, malformed=0.0,
-                 max_depth=3, alt_no_fallback=0.0, switches=0.5, linked_rate=0.15, odd_links=None):
+                 max_depth=3, alt_no_fallback=0.0, switches=0.5, linked_rate=0.15, odd_links=None, stray_in_table=0.0, type_aliases=0.0):
         self.rng = rng
+        self.type_aliases = type_aliases
+        self.stray_in_table = stray_in_table
         # linked targets whose content type cannot be determined (an anomaly: they produce a warning); by default as often as other anomalies
         self.odd_links = anomalies if odd_links is None else odd_links
         self.hostile, self.anomalies, self.optional_absent, self.dangling = hostile, anomalies, optional_absent, dangling
@@ -170,7 +174,10 @@ class XGen:
                 blip = X("a:blip", {"r:link": rid})
             else:
                 self.pkg.media["word/" + name] = data
-                if self.maybe(0.3):
+                if self.maybe(self.type_aliases):
+                    # a declared type is passed on as declared, also when it is an unregistered alias of a common one
+                    self.pkg.content_types["overrides"].append(("/word/" + name, r.choice(["image/jpg", "image/pjpeg", "image/x-png", "image/tif", "image/x-tiff", "IMAGE/PNG"])))
+                elif self.maybe(0.3):
                     self.pkg.content_types["overrides"].append(("/word/" + name, "image/" + {"emf": "x-emf", "jpg": "jpeg"}.get(ext.lower(), ext.lower())))
                 elif ext != ext.lower() and ext not in [d[0] for d in self.pkg.content_types["defaults"]] and self.maybe(0.5):
                     # a default declared in the letter case the part name uses, with a type of its own: extension defaults are looked up as written
@@ -352,6 +359,11 @@ class XGen:
             tblpr = [X("w:tblPr", {}, [X("w:tblStyle", {"w:val": sid})])]
         elif self.maybe(0.5):
             tblpr = [X("w:tblPr")]
+        if self.maybe(self.stray_in_table):
+            # range markup and structured tags may sit directly between the rows of a table (the converter answers with a warning)
+            stray = r.choice([X("w:bookmarkStart", {"w:id": "9", "w:name": "between_rows"}),
+                              X("w:sdt", {}, [X("w:sdtPr", {}, [X("wordml:checkbox")])]), X("w:bookmarkEnd", {"w:id": "9"})])
+            trs.insert(r.randint(0, len(trs)), stray)
         return X("w:tbl", {}, tblpr + ([X("w:tblGrid")] if self.maybe(0.7) else []) + trs)
 
     def blocks(self, depth, n, tables=True):
@@ -432,8 +444,10 @@ class XGen:
                 X("w:abstractNum", {"w:abstractNumId": "3"}, [X("w:numStyleLink", {"w:val": "EmptyListStyle"})])]
         if self.maybe(self.dangling):
             absn.append(X("w:abstractNum", {"w:abstractNumId": "4"}, [X("w:numStyleLink", {"w:val": "NoSuchStyle"})]))
-        nums = [X("w:num", {"w:numId": "1"}, [X("w:abstractNumId", {"w:val": "0"})]),
-                X("w:num", {"w:numId": "2"}, [X("w:abstractNumId", {"w:val": "1"})]),
+        # a w:num may override the START of a level (w:lvlOverride > w:startOverride) without redefining the level
+        ov = lambda: ([X("w:lvlOverride", {"w:ilvl": str(r.choice([0, 1]))}, [X("w:startOverride", {"w:val": "1"})])] if self.maybe(0.5) else [])
+        nums = [X("w:num", {"w:numId": "1"}, [X("w:abstractNumId", {"w:val": "0"})] + ov()),
+                X("w:num", {"w:numId": "2"}, [X("w:abstractNumId", {"w:val": "1"})] + ov()),
                 X("w:num", {"w:numId": "3"}, [X("w:abstractNumId", {"w:val": "2"})]),
                 X("w:num", {"w:numId": "4"}, [X("w:abstractNumId", {"w:val": "3"})]),
                 X("w:num", {"w:numId": "5"}, [X("w:abstractNumId", {"w:val": "77"})])]
